@@ -250,3 +250,20 @@ Proof.
   destruct (recv_all_ind k l1 m H1 HM) as (_ & A2 & A3). destruct (recv_all_ind k l2 m H2 HM) as (_ & B2 & B3).
   cbn zeta in *. split; intros x; rewrite ?A2, ?A3, ?B2, ?B3, HE; reflexivity.
 Qed.
+
+(* ---------------- statement used verbatim by Props/C02.v ---------------- *)
+Definition individual_request (o : op) (l : list Z) : Prop :=
+  o = OSub l \/ o = OUnsub l \/ o = OPause l \/ o = OResume l.
+
+Lemma refused : forall s o l, sub_all (cl s) = true -> individual_request o l ->
+  mem ALL_MESSAGE_TYPES l = false ->
+  client_step (cl s) o = SRaise EInvalidSubscription (cl s) /\ sys_step s o = (s, Some EInvalidSubscription).
+Proof.
+  intros [c m] o l A R HA. cbn [cl] in *.
+  assert (E : client_step c o = SRaise EInvalidSubscription c).
+  { destruct R as [R|[R|[R|R]]]; subst o; cbn [client_step];
+      [change (subscribe c l) with (sub_ctrl c l (kstr KSub))|change (unsubscribe c l) with (sub_ctrl c l (kstr KUnsub))
+      |change (pause_subscription c l) with (sub_ctrl c l (kstr KPause))
+      |change (resume_subscription c l) with (sub_ctrl c l (kstr KResume))]; rewrite sub_ctrl_eq, HA, A; reflexivity. }
+  split; [exact E|]. unfold sys_step. cbn [cl mg]. rewrite E. reflexivity.
+Qed.
